@@ -47,6 +47,13 @@ type compactEngine struct {
 	// ploss: C06 under concurrency - Sync calls race with writers and compaction, the images are
 	// power-loss images (per-file synced content + a prefix of what was written since)
 	ploss bool
+	// afterRecovery: C04 - every run starts from the image of a session that died (the recovering Open runs under
+	// the scheduler, with the background worker configured in 2 runs of 3), then compaction, writers and crash
+	// points as for C05
+	afterRecovery bool
+	// closed: C09 after a concurrent session - the run ends with a clean Close, then the next Open runs; power-loss
+	// images at every instant from the return of Close to the end of that Open must read the closed contents
+	closed bool
 }
 
 func (c compactEngine) Generate(rng *rand.Rand, prop string, thorough bool) *Plan {
@@ -83,7 +90,24 @@ func (c compactEngine) Generate(rng *rand.Rand, prop string, thorough bool) *Pla
 		cfg.Family = []int{int(KFTiny), int(KFMixed)}[rng.Intn(2)]
 		cfg.MaxSeg = []uint32{1024, 2048, 4096}[rng.Intn(3)]
 	}
-	cfg.RecoverFirst = rng.Intn(4) == 0
+	// 1 run in 4 (C09 mode: more than half; not chain/grow): "cold keys in sealed, garbage-free segments" - the older segments hold only live
+	// puts (never picked on their own), the newer ones hold the garbage of a few hot keys, the preload writes no
+	// delete record, and the writers' FIRST operations delete cold keys while the compactor picks: a delete record
+	// that reaches a picked segment between the pick and the moment it stops taking writes is dropped while the
+	// put in the unpicked older segment stays (seen after a crash)
+	if !chain && !grow && !c.ploss && !c.afterRecovery && (rng.Intn(4) == 0 || (c.closed && rng.Intn(2) == 0) || os.Getenv("VERIF_SHAPE") == "cold") {
+		pc := c.generateCold(rng, prop, cfg)
+		if c.closed {
+			pc.Engine = "compact-closed"
+		}
+		return pc
+	}
+	cfg.RecoverFirst = rng.Intn(4) == 0 || c.afterRecovery
+	if c.afterRecovery && !chain && rng.Intn(3) != 0 {
+		cfg.BgCompactMs = []int{7, 11}[rng.Intn(2)]
+		cfg.TickProb = []float64{0.05, 0.2, 0.4}[rng.Intn(3)]
+		cfg.FSYields = true
+	}
 	if cfg.RecoverFirst {
 		// after a recovery the segment counters are what recovery rebuilt: let the thresholds decide
 		// which segments are picked, so that a segment is also compacted WITHOUT its older neighbours
@@ -92,6 +116,9 @@ func (c compactEngine) Generate(rng *rand.Rand, prop string, thorough bool) *Pla
 	p := &Plan{Property: prop, Engine: "compact", Cfg: cfg}
 	if c.ploss {
 		p.Engine = "compact-ploss"
+	}
+	if c.closed {
+		p.Engine = "compact-closed"
 	}
 	keys := GenKeys(rng, KeyFamily(cfg.Family), cfg.NKeys, cfg.HashSeed)
 	p.Cfg.NKeys = len(keys)
@@ -164,6 +191,77 @@ func (c compactEngine) Generate(rng *rand.Rand, prop string, thorough bool) *Pla
 	return p
 }
 
+func (c compactEngine) generateCold(rng *rand.Rand, prop string, cfg Cfg) *Plan {
+	cfg.NKeys = 6 + rng.Intn(7)
+	cfg.MaxSeg = []uint32{900, 1024, 2048}[rng.Intn(3)]
+	cfg.CompMinSeg = 1
+	cfg.CompFrag = []float32{0.1, 0.2, 0.4}[rng.Intn(3)]
+	cfg.RecoverFirst = false
+	p := &Plan{Property: prop, Engine: "compact", Cfg: cfg}
+	keys := GenKeys(rng, KeyFamily(cfg.Family), cfg.NKeys, cfg.HashSeed)
+	p.Cfg.NKeys = len(keys)
+	cfg.NKeys = len(keys)
+	p.SetKeys(keys)
+	id := 0
+	nHot := 1 + rng.Intn(2)
+	if nHot >= cfg.NKeys {
+		nHot = 1
+	}
+	var hot, cold []int
+	for k := 0; k < cfg.NKeys; k++ {
+		if k < nHot {
+			hot = append(hot, k)
+		} else {
+			cold = append(cold, k)
+		}
+	}
+	var pre []Op
+	for _, k := range cold {
+		id++
+		pre = append(pre, Op{K: "put", Key: k, ID: id, Size: []int{100, 200, 200}[rng.Intn(3)]})
+	}
+	hotPuts := func(n int) []Op {
+		var o []Op
+		for ; n > 0; n-- {
+			id++
+			o = append(o, Op{K: "put", Key: hot[rng.Intn(len(hot))], ID: id, Size: []int{40, 100, 200}[rng.Intn(3)]})
+		}
+		return o
+	}
+	pre = append(pre, hotPuts(6+rng.Intn(12))...)
+	p.Epochs = [][]Op{pre}
+	// the deleter: a cold key first, then hot puts (the log rolls over to a current segment without delete
+	// records), then the next cold key ...
+	var del []Op
+	for _, i := range rng.Perm(len(cold)) {
+		if len(del) > 30 {
+			break
+		}
+		del = append(del, Op{K: "del", Key: cold[i]})
+		del = append(del, hotPuts(rng.Intn(8))...)
+	}
+	p.Tasks = append(p.Tasks, del)
+	var comp []Op
+	nc := 2 + rng.Intn(6)
+	if c.closed {
+		// C09 looks at the directory after the session: a later compaction of the older segments would
+		// remove what a dropped delete record leaves behind
+		nc = 1 + rng.Intn(2)
+	}
+	for ; nc > 0; nc-- {
+		comp = append(comp, Op{K: "compact"})
+	}
+	p.Tasks = append(p.Tasks, comp)
+	if rng.Intn(3) == 0 {
+		all := make([]int, cfg.NKeys)
+		for i := range all {
+			all[i] = i
+		}
+		p.Tasks = append(p.Tasks, genClient(rng, cfg, 3+rng.Intn(10), map[string]int{"get": 30, "has": 10, "count": 5}, all, &id, []int{0}))
+	}
+	return p
+}
+
 // allowedFromHistory computes, for a crash at stamp s, the allowed values per key from a
 // concurrent history in which every key has a single writer task (plus the preload by main).
 func allowedFromHistory(hist []*HistEv, keys [][]byte, s int64) (map[string]valset, *oracle) {
@@ -215,6 +313,9 @@ func (c compactEngine) Execute(p *Plan) *RunResult {
 	}
 	if c.ploss {
 		return c.powerLossSweep(p, cr, res)
+	}
+	if c.closed {
+		return c.closedSweep(p, cr, res)
 	}
 	// single-writer check of the plan (main preload happens-before the clients)
 	// crash points inside Compact calls (and right after them)
@@ -885,6 +986,76 @@ func (c compactEngine) powerLossSweep(p *Plan, cr *concResult, res *RunResult) *
 	for _, ev := range cr.hist {
 		if ev.Op.K == "sync" && ev.Task != 0 {
 			res.Probes["sync_calls_in_concurrent_run"]++
+		}
+	}
+	if cr.env.Probes["segment_removed"] > 0 && cr.sim.Switches > 2 {
+		res.Probes["writer_ran_during_compaction"] += countWritesDuringCompaction(cr.hist)
+	}
+	res.NonTrivial = cr.env.Probes["segment_removed"] > 0
+	res.Sample = map[string]interface{}{"seed": p.Seed, "tasks": len(p.Tasks), "ops": p.NumOps(), "steps": res.Steps, "power_loss_instants": len(pts), "sync_mode": p.Cfg.SyncMode, "cfg": p.Cfg}
+	return res
+}
+
+// closedSweep (C09): the concurrent session was closed cleanly by the main task; the next Open is executed (outside
+// the scheduler, single task) with the journal still recording. A power failure at any instant from the return of
+// Close to the end of that Open must leave a directory that opens to exactly the closed contents.
+func (c compactEngine) closedSweep(p *Plan, cr *concResult, res *RunResult) *RunResult {
+	keys := p.KeyBytes()
+	if cr.closeRet == 0 || cr.closedBy != 0 {
+		res.V = violf("close-failed", "the final Close of the concurrent session did not return nil")
+		return res
+	}
+	e := cr.env
+	first := len(e.FS.Journal) // Close was the last call of the run: everything from here on belongs to the next Open
+	if err := e.Open(); err != nil {
+		res.V = violf("open-failed", "Open after the clean Close of the concurrent session: %v", err)
+		return res
+	}
+	if e.lastOpenRecovered {
+		res.V = violf("clean-reopen-recovered", "Open after the clean Close of the concurrent session ran recovery")
+		return res
+	}
+	j := e.FS.Journal[:len(e.FS.Journal):len(e.FS.Journal)]
+	if err := e.DB.Close(); err != nil {
+		res.V = violf("api-error", "Close of the next session: %v", err)
+		return res
+	}
+	al, o := allowedFromHistory(cr.hist, keys, 1<<60)
+	rp := NewReplayer(initialOrEmpty(cr.initial))
+	applied := 0
+	var pts []int
+	for k := first; k <= len(j); k++ {
+		pts = append(pts, k)
+	}
+	rng := rand.New(rand.NewSource(p.Seed ^ 0x510e527f))
+	if len(pts) > 8 {
+		// the first instants (lock file created or not) always, a sample of the rest
+		rest := pts[3:]
+		rng.Shuffle(len(rest), func(a, b int) { rest[a], rest[b] = rest[b], rest[a] })
+		pts = append(pts[:3], rest[:5]...)
+		sort.Ints(pts)
+	}
+	for _, k := range pts {
+		for applied < k {
+			rp.Apply(&j[applied])
+			applied++
+		}
+		lr := rand.New(rand.NewSource(p.Seed ^ int64(k)<<20))
+		images, fams := powerLossImages(rp, lr, crashPoint{k: k}, j)
+		for ii, im := range images {
+			res.Evaluations++
+			res.Faults[fams[ii]]++
+			res.Faults["power_loss_after_close_of_concurrent_session"]++
+			res.Hashes = append(res.Hashes, fnvAdd(im.Digest(), []byte("c09c"+fams[ii])))
+			if _, v := checkImage(p.Cfg, keys, im, o, al, res.Probes); v != nil {
+				desc := "after the next Open had returned"
+				if k < len(j) {
+					desc = fmt.Sprintf("in flight: %s of the next Open", j[k])
+				}
+				v.Detail = fmt.Sprintf("power loss after the clean Close of a concurrent session, at journal[%d/%d] (%s) family=%s: %s", k, len(j), desc, fams[ii], v.Detail)
+				res.V = v
+				return res
+			}
 		}
 	}
 	if cr.env.Probes["segment_removed"] > 0 && cr.sim.Switches > 2 {
